@@ -2,6 +2,7 @@ package main
 
 import (
 	"fmt"
+	nurl "net/url"
 	"regexp"
 
 	distiller "github.com/markusmobius/go-domdistiller"
@@ -13,6 +14,8 @@ import (
 // unique id (u<N>z), so the expected output value is known by construction.
 
 var rxRefID = regexp.MustCompile(`u\d+z`)
+
+var c06SharedURL = &nurl.URL{}
 
 var c06Pages = []string{
 	"http://example.com/dir/sub/page.html",
@@ -48,9 +51,15 @@ func runC06(c *Ctx, idx int) {
 	prof.Hidden, prof.InlineAttrs = false, false
 	prof.RelURLs = true
 	prof.MediaInText = true
-	pk := idx / 2 % len(c06Pages)
+	pk := c.RNG(idx, 9).Intn(len(c06Pages)) // drawn, not derived from idx: idx mod 16 decides the worker
 	prof.PageURL = c06Pages[pk]
 	opts := &distiller.Options{OriginalURL: mustURL(prof.PageURL), SkipPagination: idx%3 != 0, PaginationAlgo: distiller.PaginationAlgo(idx % 2)}
+	if idx%5 == 1 {
+		// a caller that keeps one url.URL value and overwrites it for every page
+		*c06SharedURL = *mustURL(prof.PageURL)
+		opts.OriginalURL = c06SharedURL
+		c.Inc("cases_with_reused_url_object")
+	}
 	ar, ok := c.runArticle(idx, prof, opts)
 	if !ok {
 		return
